@@ -183,7 +183,7 @@ def eval_grad(sc, mode="both"):
          "shared": bool(sc.get("shared", False)), "ident": bool(sc.get("ident", False)),
          "outcome": outcome, "fun": fun, "funverdict": "check" if fr is not None else "skip",
          "failedG": [False] * R, "gst": "none", "grad": [[num(None)] * V for _ in range(3)], "wgrad": [num(None)] * V,
-         "spanning": [False] * R, "spanningAll": False}
+         "spanning": [False] * R, "spanningAll": False, "gradsig": [[num(None)] * V for _ in range(3)]}
     if gr is not None:
         e["failedG"] = [bool(v) for v in gr.realizations.failed_realizations]
         e["spanning"], e["spanningAll"] = spanning_flags(gr, config.variables.mask)
@@ -199,6 +199,10 @@ def eval_grad(sc, mode="both"):
                 else:
                     rows.append(nums(g[f]))
             e["grad"] = rows
+            # gradient of a standard deviation times the deviation reported by the same call (rational when the function and
+            # the gradient use the same set of realizations)
+            e["gradsig"] = [[(num(g[f, v] * sigma[f]) if sc["est"][f] == "std" and sigma[f] is not None and not np.isnan(sigma[f])
+                              else num(None)) for v in range(V)] for f in range(3)]
             e["wgrad"] = nums(gr.gradients.weighted_objective)
     return e, res, ev
 
